@@ -4,7 +4,7 @@
 # are not touched, e.g. while a thorough run is in progress). The scratch trees are kept between calls; run with
 # --clean to remove them.
 set -u
-TS=/tmp/ts
+TS=${TS_DIR:-/tmp/ts}
 if [ "${1:-}" = "--clean" ]; then git -C /repo worktree remove --force $TS/repo 2>/dev/null; rm -rf $TS; git -C /repo worktree prune; exit 0; fi
 PATCH="$(readlink -f "$1")"; DEMO="$2"; shift 2
 if [ ! -d $TS/repo ]; then mkdir -p $TS; git -C /repo worktree add --detach $TS/repo HEAD -q; cp /repo/Cargo.lock $TS/repo/; fi
